@@ -59,6 +59,29 @@ class HC(HA):                   # inherits e2 -> on_two, overrides e1 -> alt
 
 
 CLASSES = [HA, HB, HC]
+for _c in CLASSES:
+    _c.BASE = _c
+
+# Flavours of handler *instances*: the statement quantifies over all handlers, also those with unusual
+# truthiness or equality.  Sub-classes only add the dunder; mappings and methods are inherited.
+FLAVOURS = ['plain', 'bool-false', 'len-zero', 'equal-to-everything']
+
+
+def _flavoured(base, flavour):
+    if flavour == 'plain':
+        return base
+    body = {'BASE': base, 'FLAVOUR': flavour}
+    if flavour == 'bool-false':
+        body['__bool__'] = lambda self: False
+    elif flavour == 'len-zero':
+        body['__len__'] = lambda self: 0
+    else:
+        body['__eq__'] = lambda self, other: True       # also equal to None; != is always False
+        body['__hash__'] = HBase.__hash__               # the hb_util constant: distinct per handler
+    return type('%s_%s' % (base.__name__, flavour.replace('-', '_')), (base,), body)
+
+
+FLAVOURED = [[_flavoured(c, f) for f in FLAVOURS] for c in CLASSES]
 # the oracle's own statement of who listens to what, through which method
 MAP = {HA: {'e1': 'e1', 'e2': 'on_two'}, HB: {'e1': 'other'}, HC: {'e1': 'alt', 'e2': 'on_two'}}
 EVENTS = ['e1', 'e2', 'unknown']
@@ -76,14 +99,15 @@ class Frame:
 
 
 class Env:
-    def __init__(self, sp, n, order):
+    def __init__(self, sp, n, order, flavours=None):
         self.sp = sp
         self.d = EventDispatcher()
         self.order = tuple(order)
         events = [[(i, getattr(CLASSES[i], MAP[CLASSES[i]][ev])) for i in range(n) if ev in MAP[CLASSES[i]]]
                   for ev in ('e1', 'e2')]
         hv = order_hashes(events, n, self.order)
-        self.hs = [CLASSES[i](self, i, hv[i]) for i in range(n)]
+        self.flavours = list(flavours) if flavours is not None else [0] * n
+        self.hs = [FLAVOURED[i][self.flavours[i]](self, i, hv[i]) for i in range(n)]
         self.n = n
         self.reg = set()
         self.frames = []
@@ -179,7 +203,7 @@ class Env:
         sp = self.sp
         for i, h in enumerate(self.hs):
             mine = [c for c in fr.calls if c[0] == i]
-            mapped = MAP[type(h)].get(fr.event)
+            mapped = MAP[h.BASE].get(fr.event)
             what = '%sdispatch(%r): handler h%d (%s)' % (where.strip() + ' ' if where.strip() else '', fr.event, i,
                                                            type(h).__name__)
             if i in fr.touched:
@@ -190,6 +214,8 @@ class Env:
                 sp.check(len(mine) >= 1, 'missed', '%s is registered and was not called' % what)
                 sp.check(len(mine) == 1, 'duplicate', '%s was called %d times' % (what, len(mine)))
                 sp.cover('delivered')
+                if self.flavours[i]:
+                    sp.cover('delivered-to-' + FLAVOURS[self.flavours[i]])
             else:
                 sp.check(not mine, 'spurious-call', '%s is not a registered listener but was called: %r'
                          % (what, [c[1] for c in mine]))
@@ -209,7 +235,7 @@ class Env:
                                        % (seen, self.order))
                 if self.order != tuple(range(self.n)):
                     sp.cover('non-default-listener-order')
-        if fr.event == 'unknown' or not any(fr.event in MAP[type(self.hs[i])] for i in fr.reg0):
+        if fr.event == 'unknown' or not any(fr.event in MAP[self.hs[i].BASE] for i in fr.reg0):
             sp.cover('nobody-listens')
 
 
@@ -217,11 +243,14 @@ PRE = ['never', 'added', 'added twice', 'added, removed', 'added, removed, added
 
 
 def h_history(sp, n=3, build=False, steps=3, menu=('none', 'rm self', 'rm next', 'add next', 'disp'),
-              shapes=(0, 2, 5), nested=True, pre=(0, 1, 2, 3, 4), orders=(0,)):
+              shapes=(0, 2, 5), nested=True, pre=(0, 1, 2, 3, 4), orders=(0,), flavours=(0,)):
     perms = list(itertools.permutations(range(n)))
     order = perms[sp.pick(list(orders), 'listener-order')]
     sp.note('listener iteration order: %r' % (order,))
-    env = Env(sp, n, order)
+    fl = [sp.pick(list(flavours), 'flavour[h%d]' % i) for i in range(n)]
+    if any(fl):
+        sp.note('handler flavours: %s' % ', '.join('h%d=%s' % (i, FLAVOURS[f]) for i, f in enumerate(fl)))
+    env = Env(sp, n, order, fl)
     if build:
         for i in range(n):
             hist = PRE[sp.pick(list(pre), 'history[h%d]' % i)]
@@ -397,12 +426,16 @@ HARNESSES = {
                      required=['multiple-inheritance', 'empty-decoration', 'several-classes-listen']),
 }
 
+FLAVOUR_TAGS = ['delivered-to-bool-false', 'delivered-to-len-zero', 'delivered-to-equal-to-everything',
+                'two-listeners', 'nested-dispatch', 'removed-during-dispatch', 'nobody-listens']
 FULL_MENU = ('none', 'rm self', 'rm next', 'rm prev', 'add next', 'add prev', 'disp')
 
 TIERS = {
     'quick': [
         ('history', dict(n=3, build=False, steps=3, orders=(0, 5))),
         ('state', dict(n=3, build=True, steps=1)),
+        ('state', dict(n=3, build=True, steps=1, pre=(0, 1), menu=('none', 'rm next', 'disp'), shapes=(5,),
+                       flavours=(0, 1, 2, 3)), {'required': FLAVOUR_TAGS}),
         ('decor', dict(shape='chain3', nnames=2)),
         ('decor', dict(shape='siblings', nnames=2)),
         ('decor-mi', dict(shape='two-roots', nnames=2)),
@@ -412,6 +445,8 @@ TIERS = {
         ('history', dict(n=3, build=False, steps=4)),
         ('state', dict(n=3, build=True, steps=1, orders=(0, 1, 2, 3, 4, 5))),
         ('state', dict(n=3, build=True, steps=1, menu=FULL_MENU, shapes=(0, 1, 2, 3, 4, 5))),
+        ('state', dict(n=3, build=True, steps=1, pre=(0, 1, 3), shapes=(0, 5), flavours=(0, 1, 2, 3)),
+         {'required': FLAVOUR_TAGS}),
         ('history', dict(n=3, build=True, steps=2, shapes=(0, 5), pre=(0, 2, 3), orders=(0, 5))),
         ('decor', dict(shape='chain3', nnames=2)),
         ('decor', dict(shape='siblings', nnames=2)),
@@ -436,10 +471,13 @@ RULE = ('one evaluation = one feasible path (distinct by construction); non-triv
 BOUNDS = {
     'quick': 'history: 3 handlers (classes HA, HB, HC(HA)), events e1,e2,unknown; H(3) from empty with 5 nested '
              'actions, 3 argument shapes, listener order h0<h1<h2 and its reverse; I: 5 registration histories per '
-             'handler + 1 op with 5 nested actions, 3 shapes; nesting depth 2.  decor: chain of 3, siblings, two roots '
+             'handler + 1 op with 5 nested actions, 3 shapes; nesting depth 2; I (2 histories) + 1 op with every handler '
+             'instance plain / __bool__ False / __len__ 0 / __eq__ always True (4^3 combinations, 3 actions, 1 shape).  '
+             'decor: chain of 3, siblings, two roots '
              'over 2 event names; chain of 2 over 3 names; 4 decoration kinds per (class, name)',
     'thorough': 'history: H(4); I + 1 op under all 6 listener orders; I + 1 op with 7 nested actions and 6 shapes; '
-                'I (3 histories per handler) + 2 ops (2 shapes, 2 listener orders).  decor: additionally the diamond '
+                'I (3 histories per handler) + 2 ops (2 shapes, 2 listener orders); I (3 histories) + 1 op with the 4^3 '
+                'instance flavours, 5 actions, 2 shapes.  decor: additionally the diamond '
                 'over 2 names and the chain of 3 over 3 names',
 }
 ASSUMPTIONS = [
@@ -450,6 +488,9 @@ ASSUMPTIONS = [
     'a class without any mapping may lack __events__ altogether (read as the empty mapping); such classes are not '
     'registered (add_handler asserts the protocol)',
     'handlers stay alive during the whole history (weakness is C10); dispatching stays enabled (C04)',
+    'handler flavours: instances that are falsy (__bool__ False, __len__ 0) or equal to everything incl. None '
+    '(__eq__ always True, with the per-handler hash constant, so two handlers never share a hash) are handlers like '
+    'any other; handlers that are equal AND hash-equal to each other are not exercised',
     'handler objects define __hash__ as a constant found at run time so that the listener set is iterated in the '
     'order the path asks for (harness/hb_util.py); the order is verified on every dispatch without interference',
     'callbacks with side effects are drawn for the first dispatch that has any; later dispatches of the same history '
@@ -457,3 +498,5 @@ ASSUMPTIONS = [
 ]
 OUTSIDE = ['nesting deeper than a dispatch inside a callback of a dispatch', 'more than 3 handlers / 3 event names',
            'classes using __slots__', 'handlers whose __events__ is edited after registration']
+
+TECHNIQUE = 'bounded symbolic execution (symx/z3) of dispatcher histories with nested actions, symbolic payload, listener-order control; decorator programs enumerated symbolically'
